@@ -37,6 +37,7 @@ from deep.processor.context.callback_context import CallbackContext
 from deep.processor.context.trigger_context import TriggerContext
 from deep.push import PushService
 from deep.thread_local import ThreadLocal
+from deep.utils import str2bool
 
 if TYPE_CHECKING:
     from deep.processor.context.action_context import ActionContext
@@ -104,7 +105,8 @@ class TriggerHandler:
         # work left pending when we were shut down (its end was never seen) must not be completed by whatever thread
         # comes to use the same thread id after a restart
         self._callbacks.clear_all()
-        if self._config.NO_TRACE:
+        # (text when it comes from the environment: DEEP_NO_TRACE=false does not mean 'no trace')
+        if str2bool(str(self._config.NO_TRACE)):
             return
         self.__old_sys_trace = sys.gettrace()
         # gettrace was added in 3.10, so use it if we can, else try to get from property
